@@ -147,12 +147,19 @@ pub fn dry_run(op: &str, cfg: &CfgSpec) -> Vec<(Kind, usize, usize)> {
     }
 }
 
+/// intermediate status packets a terminal may send: time-out byte 0 (captured traffic), absent, and non-zero announcements
+pub const INTERMEDIATES: [&str; 5] = ["04ff021700", "04ff0117", "04ff021799", "04ff021702", "04ff02ff01"];
+
 pub fn stall_scenarios(op: &str, cfg: &CfgSpec) -> Vec<(Scenario, bool)> {
+    stall_scenarios_with(op, cfg, None)
+}
+pub fn stall_scenarios_with(op: &str, cfg: &CfgSpec, intermediate: Option<&str>) -> Vec<(Scenario, bool)> {
     let mut out = vec![];
     let script = dry_run(op, cfg);
     let mk = |plan: Vec<PlanEntry>, connect_plan: Vec<ConnectBehaviour>, connect_default: ConnectBehaviour| {
         let mut sc = base_scenario(op, cfg.clone());
         sc.sim.intermediates = 1;
+        sc.sim.intermediate_body = intermediate.map(|s| s.to_string());
         sc.plan = plan;
         sc.connect_plan = connect_plan;
         sc.connect_default = connect_default;
@@ -212,14 +219,19 @@ pub fn run(tier: Tier) -> i32 {
     let cfg0 = CfgSpec { terminal_id: "11112222".into(), ..Default::default() };
     let s = ctx.shards("stalls", OPS.len() as u64, |i, _seed, st| {
         let op = OPS[i as usize];
-        let scs = stall_scenarios(op, &cfg0);
-        for (k, (sc, nt)) in scs.iter().enumerate() {
-            st.case(*nt, fnv(&serde_json::to_vec(sc).unwrap()));
-            st.class(&format!("stall:{op}"));
-            if k == 5 {
-                st.sample(|| json!({"op": op, "plan": sc.plan, "connect_plan": sc.connect_plan, "connect_default": sc.connect_default}));
+        for (bi, body) in INTERMEDIATES.iter().enumerate() {
+            let scs = stall_scenarios_with(op, &cfg0, if bi == 0 { None } else { Some(body) });
+            for (k, (sc, nt)) in scs.iter().enumerate() {
+                st.case(*nt, fnv(&serde_json::to_vec(sc).unwrap()));
+                st.class(&format!("stall:{op}"));
+                if bi > 0 {
+                    st.class(&format!("stall:intermediate-status={body}"));
+                }
+                if k == 5 && bi == 0 {
+                    st.sample(|| json!({"op": op, "plan": sc.plan, "connect_plan": sc.connect_plan, "connect_default": sc.connect_default}));
+                }
+                ctx.record(check_returns(sc), st);
             }
-            ctx.record(check_returns(sc), st);
         }
     });
     stats.merge(s);
@@ -257,10 +269,10 @@ pub fn run(tier: Tier) -> i32 {
             0usize..=3,
         )
             .prop_map(|(terminal_id, password, currency, amount, rct, max)| CfgSpec { terminal_id, serial: "17FD1E3C".into(), password, currency, amount, rct, max });
-        let strat = (cfg, 0usize..6, any::<u16>(), any::<bool>());
-        ctx.proptest(seed, n / 16, &strat, st, |(cfg, opi, sel, none), st| {
+        let strat = (cfg, 0usize..6, any::<u16>(), any::<bool>(), 0usize..INTERMEDIATES.len());
+        ctx.proptest(seed, n / 16, &strat, st, |(cfg, opi, sel, none, bi), st| {
             let op = OPS[*opi];
-            let scs = stall_scenarios(op, cfg);
+            let scs = stall_scenarios_with(op, cfg, if *bi == 0 { None } else { Some(INTERMEDIATES[*bi]) });
             let (sc, nt) = if *none || scs.is_empty() { (base_scenario(op, cfg.clone()), false) } else { scs[(*sel as usize * scs.len()) >> 16].clone() };
             st.case(nt, fnv(&serde_json::to_vec(&sc).unwrap()));
             st.class(&format!("sampled:{op}"));
@@ -271,7 +283,7 @@ pub fn run(tier: Tier) -> i32 {
     stats.exhaustive_parts = vec!["every packet position (ack and each reply, header-only variant, once / on every attempt) of every exchange in the fault-free transcript of each of the 6 operations, plus stalls in the handshake of a forced reconnect and in connect()".into(), "read_card_timeout 0..=255 x {plain, silent terminal, answer at t+1}".into()];
     ctx.finish(
         stats,
-        "the real Feig client against the simulated terminal on tokio's paused clock. Positions come from a fault-free dry run of each operation (handshake included); one stall {silence, packet header then silence} x {once, on every attempt} per position; stalls in the handshake of a forced reconnect; connect() never completing / refused; read_card_timeout 0..=255 exhaustively incl. a terminal answering t+1 s after its ack; proptest-sampled configurations (password, currency, amount, terminal id, max transactions) x stalls. Oracle: under a one-virtual-day watchdog the call returns, without panic, within S(op)*20*3*(T+2) virtual seconds, and a timeout inside the configured window does not abandon the exchange. non-trivial = stall inside a handshake or at a reply position >= 1, or read_card_timeout in {0,253,254,255}; distinct by scenario",
+        "the real Feig client against the simulated terminal on tokio's paused clock. Positions come from a fault-free dry run of each operation (handshake included); one stall {silence, packet header then silence} x {once, on every attempt} per position, each with the terminal's intermediate status carrying time-out byte 00 / absent / 99 / 02 / status ff; stalls in the handshake of a forced reconnect; connect() never completing / refused; read_card_timeout 0..=255 exhaustively incl. a terminal answering t+1 s after its ack; proptest-sampled configurations (password, currency, amount, terminal id, max transactions) x stalls. Oracle: under a one-virtual-day watchdog the call returns, without panic, within S(op)*20*3*(T+2) virtual seconds, and a timeout inside the configured window does not abandon the exchange. non-trivial = stall inside a handshake or at a reply position >= 1, or read_card_timeout in {0,253,254,255}; distinct by scenario",
         &["time is tokio's paused clock: 'does not return' is decided in virtual time, never by wall clock", "a terminal that keeps sending a packet every 59 s forever is not a stall in the property's sense and is not generated", "in-memory duplex streams; only the current_thread runtime is explored (Feig is driven through &mut self and spawns nothing)"],
         false,
     )
